@@ -87,6 +87,8 @@ func checkC18(r *core.Run) {
 	}
 	c18NilKey(r, p)
 	c18Rings(r, p)
+	// a panic in a goroutine started by the block parser cannot be recovered by the connection's handler (shared with C09)
+	c09Workers(r, p, "R-C18-bounds")
 	cfg := an.BoundsConfig{
 		TaintedFields: map[string]bool{"client/network.BCmsg.pl": true},
 		// outgoing-message construction: the payload handed to it is only copied into our own send
